@@ -113,13 +113,13 @@ def show_allowed_pos(allowed):
 
 def classify(a_c, v_c, fn):
     """A hint for the reader of a violation (never changes the verdict)."""
-    if isinstance(v_c, str) and ('*' in v_c or '?' in v_c) and any(
-            ch in v_c for ch in PUNCT):
-        return 'wildcard pattern with a regex-special character'
-    if any(x is None for x in a_c) and not isinstance(v_c, (str, bool)):
-        return 'blank cell in the lookup vector read as 0'
     if len(a_c) == 1 and fn.startswith('formula'):
         return 'one-cell range'
+    if isinstance(v_c, str) and ('*' in v_c or '?' in v_c) and any(
+            ch in x for ch in PUNCT for x in [v_c] + a_c if isinstance(x, str)):
+        return 'wildcard pattern next to a regex-special character'
+    if any(x is None for x in a_c) and not isinstance(v_c, (str, bool)):
+        return 'blank cell in the lookup vector read as 0'
     return 'unclassified'
 
 
